@@ -908,6 +908,14 @@ func (ck *checker) runCase(idx int) {
 		}
 	}
 	clean := ck.judgeMutation(c, w, dry)
+	if clean && idx%2 == 0 {
+		// the same dry run with a quiet logger: what is logged must not decide what is done
+		quiet := ck.observe(w, cfgPath, true, []string{"warn", "error"}[(idx/2)%2])
+		if quiet.Res.StartErr == "" && !quiet.Res.TimedOut {
+			run.Count("dry_runs_with_quiet_logger", 1)
+			clean = ck.judgeMutation(c, w, quiet) && clean
+		}
+	}
 	ck.judgeScripts(c, w, dry, cfgDir, true)
 	for _, s := range c.Scripts {
 		for _, f := range s.Flow {
